@@ -594,10 +594,26 @@ func (st *Runtime) executeList(list *ListNode) (returnValue reflect.Value) {
 		case NodeReturn:
 			node := node.(*ReturnNode)
 			returnValue = st.evalPrimaryExpressionGroup(node.Value)
+			if !returnValue.IsValid() {
+				// an executed `return nil` must stay distinguishable from "no return statement executed"
+				returnValue = returnedNil
+			}
 		}
 	}
 
 	return returnValue
+}
+
+// returnedNil stands for the value of an executed `return nil` while it travels up through the nested
+// lists (where an invalid reflect.Value means that no return statement was executed); exec turns it into nil.
+var returnedNil = reflect.ValueOf(struct{ returnedNil bool }{true})
+
+// returned is the value of a template whose root list evaluated to v.
+func returned(v reflect.Value) reflect.Value {
+	if v.IsValid() && v.Type() == returnedNil.Type() {
+		return reflect.Value{}
+	}
+	return v
 }
 
 // lastReturn is the value of the last return statement executed so far: next if the
